@@ -22,6 +22,9 @@ package copyh
 //	XX.n       dst.Exists returned an error
 //	SX.n       src.Fetch returned an error
 //	PX.n.r.s   dst.Push (r=0) / PushReference (r=1) returned an error; s=1: the content was stored
+//	FX.n       the FindSuccessors callback failed for n
+//	SR.n       Read() of the stream fetched for n failed outside a destination Push / Mount (the proxy
+//	           reading a manifest for FindSuccessors); inside a Push / Mount that operation reports it
 //	TX.n.s     dst.Tag returned an error; s=1: the reference was set
 //	MX.n.s     dst.Mount returned an error of its own; s=1: the blob was stored (mounted / uploaded)
 //	QK / QX    a prologue operation (MapRoot, Predecessors) returned / failed
@@ -60,7 +63,7 @@ import (
 
 // Fault is one injection point.
 type Fault struct {
-	Op     string `json:"op"`     // exists | fetch | push | tag | mount | pred | pre | post | skip | mountfrom | mounted | maproot
+	Op     string `json:"op"`     // exists | fetch | read | findsucc | push | tag | mount | pred | pre | post | skip | mountfrom | mounted | maproot
 	Node   int    `json:"node"`   // node id (-1 for maproot)
 	After  bool   `json:"after"`  // after the side effect of the real operation (else before it)
 	Cancel bool   `json:"cancel"` // cancel the context of the call instead of returning an error
@@ -93,6 +96,10 @@ type FCase struct {
 	//                                             every goroutine of the call is blocked then (parked operation, Acquire, done channel)
 	Cut       []int         `json:"cut"`       // ExtendedCopyGraph: FindPredecessors answers "none" for these nodes (they become roots
 	//                                             although other roots reach them: nested roots)
+	RefFetch  bool          `json:"reffetch"`  // Copy: the source is a registry.ReferenceFetcher (resolveRoot reads the root through it
+	//                                             and leaves a manifest root in the proxy cache)
+	CustomFS  bool          `json:"customfs"`  // CopyGraphOptions.FindSuccessors is set (content.Successors behind a fault point)
+	NilCb     string        `json:"nilcb"`     // "" (all callbacks set) or 5 bits: PreCopy PostCopy OnCopySkipped OnMounted MountFrom set
 	MapRoot   bool          `json:"maproot"`   // Copy gets an (identity) MapRoot: a prologue fault point
 	Mount     bool          `json:"mount"`     // the destination is a registry.Mounter and MountFrom is set (g, t, x)
 	Sched     bool          `json:"sched"`     // controlled schedule under testing/synctest
@@ -170,6 +177,17 @@ func runFScheduled(s *fsched, fn func(), unstick func(), atQuiescent func(k int)
 			default:
 			}
 			quiescent++
+			if quiescent > 300000 {
+				// a livelock (operations keep coming, the call never returns) counts as a hang too: cancel the
+				// context once; if that does not end it either, give up (synctest reports the leftover goroutines)
+				if !stuck {
+					stuck = true
+					unstick()
+				}
+				if quiescent > 400000 {
+					return
+				}
+			}
 			atQuiescent(quiescent)
 			if !s.releaseOne() {
 				if stuck {
@@ -200,6 +218,7 @@ type fcall struct {
 	viol   []string    // monitor: pushes that completed before a successor was present
 	extraFired []string
 	seed   uint64
+	pushing map[int]int // nodes whose fetched stream is being consumed by a destination Push / Mount
 }
 
 func (f *fcall) pause(n int) {
@@ -276,10 +295,66 @@ func (s *fsrc) Fetch(ctx context.Context, d ocispec.Descriptor) (io.ReadCloser, 
 	}
 	f.pause(n)
 	f.ev(fmt.Sprintf("SE.%d", n), 0, 0)
-	return &closeRec{Reader: rc, c: rc, f: func() {
+	return &closeRec{Reader: &faultReader{r: rc, f: f, n: n, half: d.Size / 2}, c: rc, f: func() {
 		f.pause(n)
 		f.ev(fmt.Sprintf("SC.%d", n), -1, 0)
 	}}, nil
+}
+
+// faultReader delivers the "read" faults: an error from Read() of a fetched stream at the first
+// read (before) or after half of the bytes (after).  When the stream is being consumed by a
+// destination Push / Mount the failure is reported by that operation (PX / MX token); otherwise
+// (the proxy reading a manifest for FindSuccessors) the token SR.n is logged here.
+type faultReader struct {
+	r         io.Reader
+	f         *fcall
+	n         int
+	half      int64
+	delivered int64
+	started   bool
+	afterSeen bool
+	failed    bool
+}
+
+func (fr *faultReader) fail() (int, error) {
+	fr.failed = true
+	fr.f.fmu.Lock()
+	inPush := fr.f.pushing[fr.n] > 0
+	fr.f.fmu.Unlock()
+	if !inPush {
+		fr.f.ev(fmt.Sprintf("SR.%d", fr.n), 0, 0)
+	}
+	return 0, errFault
+}
+
+func (fr *faultReader) Read(p []byte) (int, error) {
+	if fr.failed {
+		return 0, errFault
+	}
+	if !fr.started {
+		fr.started = true
+		if fr.f.hit("read", fr.n, false) {
+			return fr.fail()
+		}
+	}
+	if !fr.afterSeen && fr.delivered >= fr.half {
+		fr.afterSeen = true
+		if fr.f.hit("read", fr.n, true) {
+			return fr.fail()
+		}
+	}
+	if !fr.afterSeen && int64(len(p)) > fr.half-fr.delivered {
+		p = p[:fr.half-fr.delivered]
+	}
+	k, err := fr.r.Read(p)
+	fr.delivered += int64(k)
+	return k, err
+}
+
+func (f *fcall) setPushing(n int, d int) {
+	f.fmu.Lock()
+	f.pushing[n] += d
+	f.fmu.Unlock()
 }
 
 func (s *fsrc) Exists(ctx context.Context, d ocispec.Descriptor) (bool, error) {
@@ -330,7 +405,87 @@ func (s fsrcT) Resolve(ctx context.Context, ref string) (ocispec.Descriptor, err
 	return d, nil
 }
 
-type fdst struct{ f *fcall }
+// fsrcTRef additionally implements registry.ReferenceFetcher (as remote repositories do): resolveRoot
+// fetches the root by reference and reads it (content.Successors) while the proxy caches it.  Prologue
+// fault points: the FetchReference call ("resolve") and the reading of the root stream ("rootread").
+type fsrcTRef struct{ fsrcT }
+
+type prologueReader struct {
+	r         io.ReadCloser
+	f         *fcall
+	half      int64
+	delivered int64
+	started   bool
+	afterSeen bool
+	failed    bool
+}
+
+func (pr *prologueReader) Read(p []byte) (int, error) {
+	if pr.failed {
+		return 0, errFault
+	}
+	fail := false
+	if !pr.started {
+		pr.started = true
+		fail = pr.f.hit("rootread", -1, false)
+	}
+	if !fail && !pr.afterSeen && pr.delivered >= pr.half {
+		pr.afterSeen = true
+		fail = pr.f.hit("rootread", -1, true)
+	}
+	if fail {
+		pr.failed = true
+		pr.f.ev("QX", 0, 0)
+		return 0, errFault
+	}
+	if !pr.afterSeen && int64(len(p)) > pr.half-pr.delivered {
+		p = p[:pr.half-pr.delivered]
+	}
+	k, err := pr.r.Read(p)
+	pr.delivered += int64(k)
+	return k, err
+}
+
+func (pr *prologueReader) Close() error { return pr.r.Close() }
+
+func (s fsrcTRef) FetchReference(ctx context.Context, ref string) (ocispec.Descriptor, io.ReadCloser, error) {
+	f := s.f
+	f.pause(-1)
+	if f.hit("resolve", -1, false) {
+		f.ev("QX", 0, 0)
+		return ocispec.Descriptor{}, nil, errFault
+	}
+	d, err := s.t.Resolve(ctx, ref)
+	if err != nil {
+		f.ev("QX", 0, 0)
+		return d, nil, err
+	}
+	rc, err := s.t.Fetch(ctx, d)
+	if err != nil {
+		f.ev("QX", 0, 0)
+		return d, nil, err
+	}
+	f.ev("QK", 0, 0)
+	return d, &prologueReader{r: rc, f: f, half: d.Size / 2}, nil
+}
+
+type fdst struct {
+	f   *fcall
+	dmu sync.Map // digest -> *sync.Mutex
+}
+
+// lockDigest serialises the wrapper's operations on one digest (free-running mode), so that for two
+// descriptors with the same bytes ("twins": one key in a digest-keyed store) the recorded order of the
+// Exists / Push events is the order of their effects.  Controlled schedules generate no twins.
+func (d *fdst) lockDigest(t ocispec.Descriptor) func() {
+	if d.f.fs != nil {
+		return func() {}
+	}
+	m, _ := d.dmu.LoadOrStore(t.Digest.String(), &sync.Mutex{})
+	mu := m.(*sync.Mutex)
+	mu.Lock()
+	return mu.Unlock
+}
 
 func (d *fdst) Fetch(ctx context.Context, t ocispec.Descriptor) (io.ReadCloser, error) {
 	return d.f.under.Fetch(ctx, t)
@@ -343,6 +498,7 @@ func (d *fdst) Resolve(ctx context.Context, ref string) (ocispec.Descriptor, err
 func (d *fdst) Exists(ctx context.Context, t ocispec.Descriptor) (bool, error) {
 	f := d.f
 	n := f.node(t)
+	defer d.lockDigest(t)()
 	f.ev(fmt.Sprintf("XB.%d", n), 0, 1)
 	f.pause(n)
 	if f.hit("exists", n, false) {
@@ -363,7 +519,31 @@ func (d *fdst) Exists(ctx context.Context, t ocispec.Descriptor) (bool, error) {
 		b = 1
 	}
 	f.ev(fmt.Sprintf("XE.%d.%d", n, b), 0, -1)
+	f.snapshot()
 	return ok, nil
+}
+
+// snapshot (controlled schedules only: the segment between two parks is atomic w.r.t. the other operations):
+// the content of the underlying destination as a token DS.<id>+<id>+... for the model runner, which compares
+// it with the destination of the transition system at that event (intermediate-state correspondence)
+func (f *fcall) snapshot() {
+	if f.fs == nil {
+		return
+	}
+	var ids []string
+	for _, nd := range f.g.Nodes {
+		if nd.Foreign() {
+			continue
+		}
+		if ok, err := f.under.Exists(context.Background(), nd.Desc); err == nil && ok {
+			ids = append(ids, fmt.Sprint(nd.ID))
+		}
+	}
+	tok := "DS.-"
+	if len(ids) > 0 {
+		tok = "DS." + strings.Join(ids, "+")
+	}
+	f.ev(tok, 0, 0)
 }
 
 // monitor: the push of node n has just completed in the underlying store
@@ -395,6 +575,7 @@ func (d *fdst) push(ctx context.Context, t ocispec.Descriptor, rd io.Reader, ref
 	if ref != "" {
 		isRef = 1
 	}
+	defer d.lockDigest(t)()
 	f.ev(fmt.Sprintf("PB.%d.%d", n, isRef), 0, 1)
 	f.pause(n)
 	if f.hit("push", n, false) {
@@ -402,7 +583,9 @@ func (d *fdst) push(ctx context.Context, t ocispec.Descriptor, rd io.Reader, ref
 		return errFault
 	}
 	had, _ := f.under.Exists(context.Background(), t)
+	f.setPushing(n, 1)
 	err := f.under.Push(ctx, t, rd)
+	f.setPushing(n, -1)
 	res := "k"
 	if errors.Is(err, errdef.ErrAlreadyExists) || (err == nil && had) {
 		res = "x"
@@ -423,10 +606,12 @@ func (d *fdst) push(ctx context.Context, t ocispec.Descriptor, rd io.Reader, ref
 	if f.hit("push", n, true) {
 		f.pause(n)
 		f.ev(fmt.Sprintf("PX.%d.%d.1", n, isRef), 0, -1)
+		f.snapshot()
 		return errFault
 	}
 	f.pause(n)
 	f.ev(fmt.Sprintf("PE.%d.%d.%s", n, isRef, res), 0, -1)
+	f.snapshot()
 	return err
 }
 
@@ -504,7 +689,9 @@ func (d fdstMount) Mount(ctx context.Context, t ocispec.Descriptor, fromRepo str
 		}
 		return fmt.Errorf("cannot read source blob: %w", err)
 	}
+	f.setPushing(n, 1)
 	err = f.under.Push(ctx, t, rc)
+	f.setPushing(n, -1)
 	rc.Close()
 	if err != nil && !errors.Is(err, errdef.ErrAlreadyExists) {
 		f.pause(n)
@@ -640,7 +827,7 @@ func runCall(c *FCase, g *dag.Graph, src, dst oras.Target, faults []Fault, preCa
 	for _, n := range g.Nodes {
 		r.idx[keyOf(n.Desc)] = n.ID
 	}
-	f := &fcall{rec: r, c: c, g: g, faults: faults, fired: make([]bool, len(faults)), slow: map[int]bool{}, under: dst, seed: seed}
+	f := &fcall{rec: r, c: c, g: g, faults: faults, fired: make([]bool, len(faults)), slow: map[int]bool{}, under: dst, seed: seed, pushing: map[int]int{}}
 	for _, s := range c.Slow {
 		f.slow[s] = true
 	}
@@ -678,8 +865,40 @@ func runCall(c *FCase, g *dag.Graph, src, dst oras.Target, faults []Fault, preCa
 		}
 	}
 	gopts := oras.CopyGraphOptions{Concurrency: c.K, PreCopy: cb("pre"), PostCopy: cb("post"), OnCopySkipped: cb("skip")}
+	if c.CustomFS {
+		// a user FindSuccessors: content.Successors behind a fault point "findsucc" (before: nothing fetched yet;
+		// after: the successors are known, none is dispatched)
+		gopts.FindSuccessors = func(ctx context.Context, fetcher content.Fetcher, d ocispec.Descriptor) ([]ocispec.Descriptor, error) {
+			n := f.node(d)
+			if f.hit("findsucc", n, false) {
+				f.ev(fmt.Sprintf("FX.%d", n), 0, 0)
+				return nil, errFault
+			}
+			su, err := content.Successors(ctx, fetcher, d)
+			if err != nil {
+				return nil, err // (the failing fetch / read was logged as SX / SR)
+			}
+			if f.hit("findsucc", n, true) {
+				f.ev(fmt.Sprintf("FX.%d", n), 0, 0)
+				return nil, errFault
+			}
+			return su, nil
+		}
+	}
+	isSet := func(i int) bool { return len(c.NilCb) != 5 || c.NilCb[i] == '1' }
+	if !isSet(0) {
+		gopts.PreCopy = nil
+	}
+	if !isSet(1) {
+		gopts.PostCopy = nil
+	}
+	if !isSet(2) {
+		gopts.OnCopySkipped = nil
+	}
 	if c.Mount {
-		gopts.OnMounted = cb("mounted")
+		if isSet(3) {
+			gopts.OnMounted = cb("mounted")
+		}
 		gopts.MountFrom = func(_ context.Context, d ocispec.Descriptor) ([]string, error) {
 			n := f.node(d)
 			if f.hit("mountfrom", n, false) {
@@ -747,7 +966,11 @@ func runCall(c *FCase, g *dag.Graph, src, dst oras.Target, faults []Fault, preCa
 			} else if c.Mount {
 				d = fdstMount{dw}
 			}
-			_, call.Err = oras.Copy(ctx, fsrcT{sw, src, f}, fSrcRef, d, fDstRef, opts)
+			var cs oras.ReadOnlyTarget = fsrcT{sw, src, f}
+			if c.RefFetch {
+				cs = fsrcTRef{fsrcT{sw, src, f}}
+			}
+			_, call.Err = oras.Copy(ctx, cs, fSrcRef, d, fDstRef, opts)
 		}
 		// the return is logged at once: a straggler goroutine that outlives the call logs AFTER it
 		// and the transition system rejects the trace (nothing follows Ret)
@@ -870,6 +1093,7 @@ func ExecuteF(c *FCase, watchdog time.Duration) *FResult {
 
 func fModelInput(c *FCase, g *dag.Graph, roots []int, d0 []int, toks []string, rp string) string {
 	var nodes []string
+	first := map[string]int{}
 	for _, n := range g.Nodes {
 		fl := ""
 		if n.Foreign() {
@@ -881,7 +1105,19 @@ func fModelInput(c *FCase, g *dag.Graph, roots []int, d0 []int, toks []string, r
 		if fl == "" {
 			fl = "-"
 		}
-		nodes = append(nodes, fmt.Sprintf("%s/%d/%s", fl, n.ID, ints(n.Succ)))
+		dk := n.ID
+		if DigestKeyed(c.Dst) {
+			k := n.Desc.Digest.String()
+			if c.Dst == "remote" {
+				k = fmt.Sprint(n.IsManifest(), k) // a registry keeps manifests and blobs apart
+			}
+			if f0, ok := first[k]; ok {
+				dk = f0
+			} else {
+				first[k] = n.ID
+			}
+		}
+		nodes = append(nodes, fmt.Sprintf("%s/%d/%s", fl, dk, ints(n.Succ)))
 	}
 	tr := "-"
 	if len(toks) > 0 {
@@ -892,6 +1128,15 @@ func fModelInput(c *FCase, g *dag.Graph, roots []int, d0 []int, toks []string, r
 	api := c.API
 	if c.Mount {
 		api += "m"
+	}
+	// resolveRoot through a ReferenceFetcher leaves the resolved manifest in the proxy cache (a manifest is read
+	// completely by content.Successors; an empty blob is "completely read" too; any other blob is left unread
+	// and its cache push fails the size check)
+	if c.RefFetch && (c.API == "t" || c.API == "r") && (g.Nodes[c.Root].IsManifest() || len(g.Nodes[c.Root].Bytes) == 0) {
+		api += "c"
+	}
+	if len(c.NilCb) == 5 {
+		api += "/" + c.NilCb
 	}
 	return fmt.Sprintf("%d %d %s %s %s %s %s %s", len(g.Nodes), c.K, api, ints(roots), strings.Join(nodes, ";"), ints(d), tr, rp)
 }
@@ -1102,19 +1347,23 @@ func shared2Graph(r *common.Rand, tag uint64) (*dag.Graph, shared2Roles, []int) 
 	return g, ro, extra
 }
 
-func distinctDigests(g *dag.Graph) bool {
-	seen := map[string]bool{}
+// distinctDigests: no two nodes with one digest, except blob twins (same bytes under two blob media types:
+// both leaves, so mt_consistent holds) when allowTwins
+func distinctDigests(g *dag.Graph, allowTwins bool) bool {
+	seen := map[string]*dag.Node{}
 	for _, n := range g.Nodes {
 		k := n.Desc.Digest.String()
-		if seen[k] {
-			return false
+		if o, dup := seen[k]; dup {
+			if !allowTwins || n.IsManifest() || o.IsManifest() || len(n.Succ) > 0 || len(o.Succ) > 0 || n.Desc.MediaType == o.Desc.MediaType {
+				return false
+			}
 		}
-		seen[k] = true
+		seen[k] = n
 	}
 	return true
 }
 
-var fOps = []string{"exists", "exists", "fetch", "fetch", "push", "push", "push", "pre", "post", "skip"}
+var fOps = []string{"exists", "exists", "fetch", "fetch", "read", "read", "push", "push", "push", "pre", "post", "skip"}
 
 // GenerateF builds the case of a stream from its seed.
 func GenerateF(genseed uint64, stream string, thorough bool) *FCase {
@@ -1124,6 +1373,7 @@ func GenerateF(genseed uint64, stream string, thorough bool) *FCase {
 		return generateShared2(r, c)
 	}
 	var g *dag.Graph
+	twins := false
 	shared := stream == "shared" || stream == "schedshared" || ((stream == "exh") && r.Chance(1, 2))
 	for {
 		if shared {
@@ -1138,6 +1388,10 @@ func GenerateF(genseed uint64, stream string, thorough bool) *FCase {
 				o.MaxNodes = 8
 			}
 			g = dag.Random(r, o)
+			if stream == "rand" && r.Chance(1, 5) {
+				addBlobTwin(r, g) // same bytes under two blob media types, referenced by further manifests
+				twins = true
+			}
 		}
 		real := false
 		for _, n := range g.Nodes {
@@ -1145,7 +1399,7 @@ func GenerateF(genseed uint64, stream string, thorough bool) *FCase {
 				real = true
 			}
 		}
-		if real && distinctDigests(g) {
+		if real && distinctDigests(g, twins) {
 			break
 		}
 	}
@@ -1193,8 +1447,39 @@ func GenerateF(genseed uint64, stream string, thorough bool) *FCase {
 		c.MapRoot = true
 	}
 	c.Sched = stream == "sched" || stream == "schedshared"
-	if c.API != "r" && r.Chance(1, 4) {
+	// a remote.Repository over the in-process registry as destination (free-running only; registries tag
+	// manifests only, so Copy needs a manifest root; the harness-side Mounter wrapper is not combined with it)
+	if !c.Sched && r.Chance(1, 6) && (c.API == "g" || c.API == "x" || g.Nodes[c.Root].IsManifest()) {
+		c.Dst = "remote"
+	}
+	if !c.Sched && c.API != "x" && r.Chance(1, 8) && (c.API == "g" || g.Nodes[c.Root].IsManifest()) {
+		c.Src = "remote"
+	}
+	// the file store (blobs without a title go to its in-memory fallback storage), free-running only
+	if !c.Sched && c.Dst != "remote" && r.Chance(1, 10) {
+		c.Dst = "file"
+	}
+	if !c.Sched && c.Src != "remote" && r.Chance(1, 12) {
+		c.Src = "file"
+	}
+	if c.API != "r" && c.Dst != "remote" && r.Chance(1, 4) {
 		c.Mount = true
+	}
+	if (c.API == "t" || c.API == "r") && r.Chance(1, 3) {
+		c.RefFetch = true
+	}
+	if r.Chance(1, 4) {
+		c.CustomFS = true
+	}
+	if r.Chance(1, 4) {
+		// some callbacks are nil (their invocations are inserted by the model's elaboration)
+		bs := []byte("11111")
+		for i := 0; i < 4; i++ {
+			if r.Bool() {
+				bs[i] = '0'
+			}
+		}
+		c.NilCb = string(bs)
 	}
 
 	if c.API == "x" && r.Chance(1, 2) {
@@ -1251,6 +1536,12 @@ func GenerateF(genseed uint64, stream string, thorough bool) *FCase {
 		}
 		if (c.API == "t" || c.API == "r") && r.Chance(1, 10) {
 			ft.Op, ft.Node, ft.After = "resolve", -1, false
+		}
+		if c.RefFetch && r.Chance(1, 8) {
+			ft.Op, ft.Node = "rootread", -1
+		}
+		if c.CustomFS && ft.Node >= 0 && r.Chance(1, 4) {
+			ft.Op = "findsucc"
 		}
 		if c.Mount && ft.Node >= 0 && !g.Nodes[ft.Node].IsManifest() && r.Chance(3, 4) {
 			ft.Op = common.Pick(r, []string{"mount", "mount", "mountfrom", "mounted", "pre", "fetch"})
@@ -1339,7 +1630,7 @@ func generateShared2(r *common.Rand, c *FCase) *FCase {
 	if su := g.Nodes[ro.Q].Succ; len(su) > 0 && r.Chance(1, 3) {
 		fn = su[0]
 	}
-	op := common.Pick(r, []string{"push", "push", "push", "fetch", "exists", "pre", "post"})
+	op := common.Pick(r, []string{"push", "push", "push", "fetch", "read", "exists", "pre", "post"})
 	c.Faults = []Fault{{Op: op, Node: fn, After: r.Bool() && op != "push"}}
 	// slow: the grandchild claimed elsewhere and the other sibling (+ its descendants), sometimes M1 too
 	switch v := r.Intn(8); {
@@ -1388,7 +1679,7 @@ func allPlacements(c *FCase, g *dag.Graph) []Fault {
 	sort.Ints(rl)
 	var out []Fault
 	for _, n := range rl {
-		for _, op := range []string{"exists", "fetch", "push"} {
+		for _, op := range []string{"exists", "fetch", "read", "push"} {
 			for _, after := range []bool{false, true} {
 				for _, cn := range []bool{false, true} {
 					out = append(out, Fault{Op: op, Node: n, After: after, Cancel: cn})
@@ -1415,6 +1706,18 @@ func allPlacements(c *FCase, g *dag.Graph) []Fault {
 	}
 	if c.API == "t" || c.API == "r" {
 		out = append(out, Fault{Op: "resolve", Node: -1}, Fault{Op: "resolve", Node: -1, Cancel: true})
+	}
+	if c.CustomFS {
+		for _, n := range rl {
+			for _, after := range []bool{false, true} {
+				for _, cn := range []bool{false, true} {
+					out = append(out, Fault{Op: "findsucc", Node: n, After: after, Cancel: cn})
+				}
+			}
+		}
+	}
+	if c.RefFetch {
+		out = append(out, Fault{Op: "rootread", Node: -1}, Fault{Op: "rootread", Node: -1, After: true}, Fault{Op: "rootread", Node: -1, Cancel: true})
 	}
 	if c.API == "t" {
 		for _, after := range []bool{false, true} {
@@ -1534,8 +1837,8 @@ func DriveF(run *common.Run, b FBudget) {
 			fails++
 			run.OracleFail(id, sig, msg, rp)
 		}
-		desc := fmt.Sprintf("cut=%v cancelat=%d mounter=%v api=%s root=%d roots=%v K=%d %s->%s d0=%v faults=%v precancel=%v slow=%v sched=%v graph=%v",
-			c.Cut, c.CancelAt, c.Mount, c.API, c.Root, res.Roots, c.K, c.Src, c.Dst, c.D0, c.Faults, c.PreCancel, c.Slow, c.Sched, g.Describe())
+		desc := fmt.Sprintf("nilcb=%q cut=%v cancelat=%d mounter=%v api=%s root=%d roots=%v K=%d %s->%s d0=%v faults=%v precancel=%v slow=%v sched=%v graph=%v",
+			c.NilCb, c.Cut, c.CancelAt, c.Mount, c.API, c.Root, res.Roots, c.K, c.Src, c.Dst, c.D0, c.Faults, c.PreCancel, c.Slow, c.Sched, g.Describe())
 		run.Count("stream=" + c.Stream)
 		run.Count("api=" + c.API)
 		run.Count("pair=" + c.Src + "->" + c.Dst)
@@ -1545,6 +1848,28 @@ func DriveF(run *common.Run, b FBudget) {
 		}
 		if c.Mount {
 			run.Count("dst-mounter")
+		}
+		if len(c.NilCb) == 5 {
+			run.Count("nil-callbacks")
+		}
+		if c.RefFetch {
+			run.Count("src-reference-fetcher")
+		}
+		if c.CustomFS {
+			run.Count("custom-FindSuccessors")
+		}
+		{
+			dg := map[string]bool{}
+			for _, nd := range g.Nodes {
+				if dg[nd.Desc.Digest.String()] {
+					run.Count("blob-twin(same bytes, two media types)")
+					if DigestKeyed(c.Dst) {
+						run.Count("blob-twin into a digest-keyed destination")
+					}
+					break
+				}
+				dg[nd.Desc.Digest.String()] = true
+			}
 		}
 		if len(c.Cut) > 0 {
 			run.Count("nested-roots(FindPredecessors cut)")
@@ -1603,6 +1928,22 @@ func DriveF(run *common.Run, b FBudget) {
 		}
 		if first.Fired == 0 && first.Err != nil {
 			fail("error-without-fault", fmt.Sprintf("no fault fired but the call returned %v: %s", first.Err, desc))
+		}
+		if first.Err != nil && first.Fired > 0 {
+			onlyErr := true
+			for _, fl := range first.FiredL {
+				if strings.HasSuffix(fl, "+cancel") || strings.HasPrefix(fl, "precancel") || strings.HasPrefix(fl, "cancel-at") {
+					onlyErr = false
+				}
+			}
+			if onlyErr {
+				if errors.Is(first.Err, errFault) {
+					run.Count("error-identity: injected error returned")
+				} else {
+					run.Count("error-identity: OTHER error returned although only injected errors fired")
+					run.Sample(map[string]any{"error_identity": fmt.Sprint(first.Err), "fired": first.FiredL, "case": desc})
+				}
+			}
 		}
 		if first.Err == nil {
 			run.Count("first-call=ok")
